@@ -214,3 +214,96 @@ def first_byte_table(f, path):
     if src[0] is None:
         return None
     return vals, empty
+
+
+# ------------------------------------------------------------------ paths of a decoder evaluated over (first byte, total length) of its one byte-string argument
+
+class NotEvaluated(Exception):
+    pass
+
+
+def tag_len_paths(ps, argn=1):
+    """For the explored paths `ps` of a function whose branching depends only on the first byte and the length of its byte-string
+    argument number `argn`: a function feasible(tag, n) -> [paths whose conditions all hold for a string of n bytes starting with tag]
+    (tag is ignored for n == 0).  feasible raises NotEvaluated when a condition on some path reads anything else."""
+    from pat import is_arg, slice_tail1, called
+
+    def ev(t, T, n):
+        s0 = _first_byte_src(t)
+        if s0 is not None:
+            if not is_arg(s0, argn) or n < 1:
+                raise NotEvaluated()
+            return T
+        t = deref_all(t)
+        k = t[0]
+        if k == 'const':
+            if isinstance(t[1], (int, bool)):
+                return t[1]
+            raise NotEvaluated()
+        if k == 'len' or (k == 'call' and called(t[1], 'slice::len', 'len') and t[2]):
+            x = t[1] if k == 'len' else t[2][0]
+            if is_arg(x, argn):
+                return n
+            tl = slice_tail1(x)
+            if tl is not None and is_arg(tl, argn) and n >= 1:
+                return n - 1
+            raise NotEvaluated()
+        if k == 'call' and canon(t[1]).endswith(('slice::is_empty',)) and t[2] and is_arg(t[2][0], argn):
+            return n == 0
+        if k == 'discr' and deref_all(t[1])[0] == 'call':
+            c = deref_all(t[1])
+            nm = canon(c[1])
+            if nm.endswith(('::first', '::split_first')) and c[2] and is_arg(c[2][0], argn):
+                return 0 if n == 0 else 1
+            if nm.endswith('::get') and len(c[2]) == 2 and is_arg(c[2][0], argn) and deref_all(c[2][1])[0] == 'const' and isinstance(deref_all(c[2][1])[1], int):
+                return 1 if deref_all(c[2][1])[1] < n else 0
+            raise NotEvaluated()
+        if k == 'cast' and t[1] == 'IntToInt':
+            x = ev(t[2], T, n)
+            bits = _INT_BITS.get(t[3])
+            if bits is None or isinstance(x, bool):
+                raise NotEvaluated()
+            return x & ((1 << bits) - 1)
+        if k == 'un' and t[1] == 'Not':
+            x = ev(t[2], T, n)
+            return (not x) if isinstance(x, bool) else ~x
+        if k == 'bin':
+            a, c = ev(t[2], T, n), ev(t[3], T, n)
+            op = t[1]
+            if op in ('Eq', 'Ne', 'Lt', 'Le', 'Gt', 'Ge'):
+                return {'Eq': a == c, 'Ne': a != c, 'Lt': a < c, 'Le': a <= c, 'Gt': a > c, 'Ge': a >= c}[op]
+            if op in ('BitAnd', 'BitOr', 'BitXor'):
+                if isinstance(a, bool) and isinstance(c, bool):
+                    return {'BitAnd': a and c, 'BitOr': a or c, 'BitXor': a != c}[op]
+                return {'BitAnd': a & c, 'BitOr': a | c, 'BitXor': a ^ c}[op]
+            if op in ('Add', 'Sub', 'Mul') and not isinstance(a, bool) and not isinstance(c, bool):
+                r = {'Add': a + c, 'Sub': a - c, 'Mul': a * c}[op]
+                if r < 0:
+                    raise NotEvaluated()     # an underflow: the path panics or wraps, nothing to tabulate
+                return r
+        if k == 'ovf':
+            a, c = ev(t[2], T, n), ev(t[3], T, n)
+            r = {'Add': a + c, 'Sub': a - c, 'Mul': a * c}.get(t[1])
+            return r is None or r < 0 or r >= (1 << 64)
+        raise NotEvaluated()
+
+    def feasible(T, n):
+        out = []
+        for q in ps:
+            ok = True
+            for c in q.conds:
+                x = ev(c[0], T, n)
+                if c[1] == 'eq':
+                    h = (x == c[2])
+                elif c[1] == 'ne':
+                    h = x not in (c[2] if isinstance(c[2], tuple) else (c[2],))
+                else:
+                    raise NotEvaluated()
+                if not h:
+                    ok = False
+                    break
+            if ok:
+                out.append(q)
+        return out
+
+    return feasible
